@@ -296,6 +296,144 @@ func runC04(c *Ctx) {
 	for i, k := range []int{0, 40, 99, 100, 101, 130} {
 		busyBurst(c, k, i%3)
 	}
-	c.Rep.Rule = "whole controller against the fake API server inside a synctest bubble, refresh period 10^6 s (only the watch can deliver): a base history of 8 server mutations with each watch fault {server closes stream, Watch() errors k times, status frame, bookmark frame, unknown frame type, close right after a burst, close then pause / barrier} injected at every position, plus seeded random histories with several faults, with and without a controller-level filter, under three levels of logger-driven schedule perturbation. After the server quiesces and the reconnect delay elapses: cache = server's accepted objects, subscriber mirror = cache with well-formed events, controller alive, one list only; the quiescent outcome is compared with the extracted model (list, then the whole log in order). Plus the overflow history: the controller held in its filter while k in {0,40,99,100,101,130} changes arrive; the changes its subscriber sees afterwards = extracted busy_burst_outcome EventBufsiz k (closed form proved: the first EventBufsiz survive, k - EventBufsiz are lost). Non-trivial = run with at least one reconnect."
+	// the watch stays live ACROSS relists: with changes flowing all the time
+	// and relists every two seconds (some answering with a snapshot older than
+	// what the watch has already delivered), the cache equals the server at every
+	// barrier — it never has to wait for the next relist
+	nlive := 6
+	if !c.Quick() {
+		nlive = 60
+	}
+	for i := 0; i < nlive; i++ {
+		var problems []string
+		lat := []time.Duration{0, 300 * time.Millisecond, 900 * time.Millisecond}[i%3]
+		old := i%2 == 1
+		what := fmt.Sprintf("changes flowing across relists (period 2s, list latency %v, snapshot taken at the start of the list call: %v)", lat, old)
+		c.Now(what)
+		lists := 0
+		dl := sched.Bubble(c.T, func() {
+			srv := fakeapi.New()
+			srv.ListLatency = func(int) time.Duration { return lat }
+			srv.SnapshotAtStart = old
+			srv.Set(1, 1, labSets[1], 1)
+			// a change lands just as each list returns: the watcher is handling its
+			// frame while the controller applies the list and resets the watcher
+			// (alternately: the server drops the watch stream at that moment, so that
+			// the watcher is busy with an EMPTY output channel)
+			srv.AfterSnapshot = func(n int) {
+				if n >= 2 && n%2 == 0 {
+					srv.CloseStreams()
+				} else if n >= 2 {
+					srv.Set(2, 3, labSets[n%3], 1)
+				}
+			}
+			ct := newCtlWith(srv, c.Seed*100+int64(i), 1+i%3, 2*time.Second, nil)
+			defer func() {
+				ct.pert.SetLevel(0)
+				ct.c.Close()
+				sched.Settle()
+			}()
+			time.Sleep(lat + time.Millisecond)
+			ct.pert.Barrier()
+			for step := 0; step < 160; step++ {
+				if c.Rng.Intn(5) == 0 {
+					srv.Delete(1+c.Rng.Intn(2), 1+c.Rng.Intn(3))
+				} else {
+					srv.Set(1+c.Rng.Intn(2), 1+c.Rng.Intn(3), labSets[c.Rng.Intn(3)], 1)
+				}
+				time.Sleep(50 * time.Millisecond)
+				if step%8 == 7 {
+					ct.pert.Barrier()
+					got, err := cacheIDs(ct.c.Cache())
+					if want := objIDs(srv.Objects()); err != nil || !sameInts(got, want) {
+						ls, _ := srv.Calls()
+						problems = append(problems, fmt.Sprintf("at a barrier %v after start (%d lists so far) the cache holds %v, the server %v: the cache is waiting for the next relist", time.Duration(step+1)*50*time.Millisecond, len(ls), got, want))
+						break
+					}
+				}
+			}
+			ls, _ := srv.Calls()
+			lists = len(ls)
+		})
+		c.Rep.Evaluations++
+		replay := map[string]interface{}{"scenario": what, "attempt": i}
+		if dl != "" {
+			replay["deadlock"] = dl
+			c.Violation("", "hang (bubble deadlock): "+what, replay)
+		}
+		for _, p := range problems {
+			c.Violation("", p+" ["+what+"]", replay)
+		}
+		if lists >= 3 {
+			c.DistinctCase(fmt.Sprint("live-across-relists", i))
+		}
+		c.Stat("live_across_relists_lists", lists)
+	}
+	// a relist applied while the watcher goroutine is busy (held at a log call
+	// in its "session done" case, its output channel empty): the events of the
+	// watch that is established afterwards still reach the cache, without waiting
+	// for the next relist (no list can complete: the list gate is shut)
+	nbusy := 2
+	if !c.Quick() {
+		nbusy = 12
+	}
+	for i := 0; i < nbusy; i++ {
+		var problems []string
+		what := "relists applied while the watcher goroutine is held in its session-done case"
+		c.Now(what)
+		dl := sched.Bubble(c.T, func() {
+			srv := fakeapi.New()
+			srv.Set(1, 1, labSets[1], 1)
+			ct := newCtlWith(srv, c.Seed*100+50+int64(i), 0, 2*time.Second, nil)
+			defer func() {
+				ct.pert.SetLevel(0)
+				ct.c.Close()
+				sched.Settle()
+			}()
+			sched.Settle()
+			for round := 0; round < 8; round++ {
+				openLists := srv.HoldLists()
+				time.Sleep(2500 * time.Millisecond) // the periodic list call is now waiting at the gate
+				sched.Settle()
+				releaseWatcher := ct.pert.Hold("watcher")
+				srv.CloseStreams() // the watcher enters its session-done case and logs
+				sched.Settle()
+				openLists() // the list completes and is applied; the controller resets the watcher
+				sched.Settle()
+				shut := srv.HoldLists() // no further list can complete
+				releaseWatcher()
+				sched.Settle()
+				time.Sleep(1200 * time.Millisecond) // (a retry, had one been scheduled)
+				sched.Settle()
+				o := srv.Set(2, 1+round%3, labSets[round%3], 1)
+				time.Sleep(100 * time.Millisecond)
+				sched.Settle()
+				got, _ := cacheIDs(ct.c.Cache())
+				found := false
+				for _, id := range got {
+					if id == o.ID {
+						found = true
+					}
+				}
+				shut()
+				if !found {
+					ls, _ := srv.Calls()
+					problems = append(problems, fmt.Sprintf("round %d: a change reported on the watch established after the relist never reached the cache (cache %v, server %v, %d lists so far, none could complete)", round, got, objIDs(srv.Objects()), len(ls)))
+					break
+				}
+			}
+		})
+		c.Rep.Evaluations++
+		replay := map[string]interface{}{"scenario": what, "attempt": i}
+		if dl != "" {
+			replay["deadlock"] = dl
+			c.Violation("", "hang (bubble deadlock): "+what, replay)
+		}
+		for _, p := range problems {
+			c.Violation("", p+" ["+what+"]", replay)
+		}
+		c.DistinctCase(fmt.Sprint("busy-watcher-relist", i))
+	}
+	c.Rep.Rule = "whole controller against the fake API server inside a synctest bubble, refresh period 10^6 s (only the watch can deliver): a base history of 8 server mutations with each watch fault {server closes stream, Watch() errors k times, status frame, bookmark frame, unknown frame type, close right after a burst, close then pause / barrier} injected at every position, plus seeded random histories with several faults, with and without a controller-level filter, under three levels of logger-driven schedule perturbation. After the server quiesces and the reconnect delay elapses: cache = server's accepted objects, subscriber mirror = cache with well-formed events, controller alive, one list only; the quiescent outcome is compared with the extracted model (list, then the whole log in order). Plus the overflow history: the controller held in its filter while k in {0,40,99,100,101,130} changes arrive; the changes its subscriber sees afterwards = extracted busy_burst_outcome EventBufsiz k (closed form proved: the first EventBufsiz survive, k - EventBufsiz are lost). Plus changes flowing across relists (period 2s; list latency 0 / 0.3 / 0.9 s; lists answering with the snapshot of their start or of their end; perturbed schedules): cache = server at every barrier, never waiting for the next relist; and relists applied while the watcher goroutine is held in its session-done case (logger hook), 8 rounds each: the next change reported on the watch reaches the cache although no list can complete. Non-trivial = run with at least one reconnect."
 	c.Rep.Stats["runs"] = runs
 }
